@@ -75,6 +75,10 @@ Proof.
   rewrite <- (p_written _ _ _ Pi), Hx, app_nil_r. reflexivity.
 Qed.
 
+(* after stop() at most one more chunk is written *)
+Lemma after_halt_inv s i p : inv s -> get_player s i = Some p -> pafter p <= 1.
+Proof. intros [_ P] H. apply (p_after _ _ _ (P i p H)). Qed.
+
 (* the ValueError branch of list.remove and the AssertionError branch of close are dead code *)
 Lemma remove_never_raises_inv s i p : inv s -> get_player s i = Some p ->
   ppc_ p = PFinRemove -> In i (sthreads s).
